@@ -273,9 +273,9 @@ theorem pyStep_mem (E : Env α) (hs : SortOk E) (l : List α) (op : Op α) (l' :
   | reverse =>
     simp only [pyStep, Except.ok.injEq, Prod.mk.injEq] at h; obtain ⟨rfl, _⟩ := h
     left; simpa using hx
-  | sort =>
+  | sort sp =>
     simp only [pyStep, Except.ok.injEq, Prod.mk.injEq] at h; obtain ⟨rfl, _⟩ := h
-    left; exact (hs l).mem_iff.mp hx
+    left; exact (hs sp l).mem_iff.mp hx
 
 
 /-! ### lengths -/
@@ -458,10 +458,10 @@ theorem pyStep_length (E : Env α) (hs : SortOk E) (l : List α) (op : Op α) (l
   | reverse =>
     simp only [pyStep, Except.ok.injEq, Prod.mk.injEq] at h; obtain ⟨rfl, _⟩ := h
     simp [guardLen]
-  | sort =>
+  | sort sp =>
     simp only [pyStep, Except.ok.injEq, Prod.mk.injEq] at h; obtain ⟨rfl, _⟩ := h
     simp only [guardLen]
-    exact (hs l).length_eq
+    exact (hs sp l).length_eq
 
 /-- The guard only looks at the number of items carried, which validation preserves. -/
 theorem guardLen_validated (E : Env α) (l : List α) (op op' : Op α)
